@@ -51,8 +51,9 @@ type clSecDecl struct {
 	Req string `json:"req"`
 }
 type clDecl struct {
-	Kind        string      `json:"kind"` // action | workflow | popular
-	Loc         string      `json:"loc"`  // directory of a local action: sub (./.github/actions/x) | root
+	Kind        string      `json:"kind"`  // action | workflow | popular
+	Loc         string      `json:"loc"`   // directory of a local action: sub (./.github/actions/x) | root
+	Using       string      `json:"using"` // runs.using of a local action: composite | node20 | docker | node16
 	Inputs      []clInDecl  `json:"inputs"`
 	Secrets     []clSecDecl `json:"secrets"`
 	Outputs     []clName    `json:"outputs"`
@@ -138,11 +139,32 @@ func clRenderAction(d clDecl) string {
 	if len(d.Outputs) > 0 {
 		sb.WriteString("outputs:\n")
 		for _, o := range d.Outputs {
-			sb.WriteString("  " + o.Sp + ":\n    description: d\n    value: v\n")
+			sb.WriteString("  " + o.Sp + ":\n    description: d\n")
+			if !clIsJSOrDocker(d.Using) {
+				sb.WriteString("    value: v\n") // outputs of a composite action need a value
+			}
 		}
 	}
-	sb.WriteString("runs:\n  using: composite\n  steps:\n    - run: echo\n      shell: bash\n")
+	// each kind of action with the keys it requires (clActionFiles creates the files that are referenced)
+	switch {
+	case d.Using == "docker":
+		sb.WriteString("runs:\n  using: docker\n  image: docker://alpine:3.19\n")
+	case strings.HasPrefix(d.Using, "node"):
+		sb.WriteString("runs:\n  using: " + d.Using + "\n  main: index.js\n")
+	default:
+		sb.WriteString("runs:\n  using: composite\n  steps:\n    - run: echo\n      shell: bash\n")
+	}
 	return sb.String()
+}
+
+func clIsJSOrDocker(using string) bool { return using == "docker" || strings.HasPrefix(using, "node") }
+
+// files referenced by the runs section of the rendered action
+func clActionFiles(d clDecl, dir string) error {
+	if strings.HasPrefix(d.Using, "node") {
+		return clWrite(filepath.Join(dir, "index.js"), "// main\n")
+	}
+	return nil
 }
 
 func clRenderCallee(d clDecl) string {
@@ -339,6 +361,9 @@ func clClassify(errs []*actionlint.Error, out *clOut) {
 			case strings.HasPrefix(m, "the runner of ") && strings.Contains(m, " action is too old to run on GitHub Actions"):
 				out.Diags = append(out.Diags, clDiag{"outdated", ""})
 				continue
+			case strings.HasPrefix(m, "invalid runner name ") && strings.Contains(m, " at runs.using in "):
+				out.Diags = append(out.Diags, clDiag{"invalid-runner", ""})
+				continue
 			}
 		case "workflow-call":
 			switch {
@@ -527,6 +552,9 @@ func clRunGroup(g clGroup, base string) []clOut {
 			actionDir = root
 		}
 		if err := clWrite(filepath.Join(actionDir, "action.yml"), calleeText); err != nil {
+			panic(err)
+		}
+		if err := clActionFiles(g.d, actionDir); err != nil {
 			panic(err)
 		}
 	case "workflow":
